@@ -166,6 +166,8 @@
 ;@ghost db.meltrow (Array Str mint/storage.MeltQuote)
 ;@ghost db.sig (Array Str Bool)
 ;@ghost db.sigrow (Array Str SigRow)
+;@ghost db.issuedtotal Int
+;@ghost db.redeemedtotal Int
 ;@ghost db.faults Int
 ;@monotone db.faults
 (declare-datatypes ((SigRow 0)) (((mk.SigRow (SigRow.Amount Int) (SigRow.C_ Str) (SigRow.Id Str) (SigRow.E Str) (SigRow.S Str)))))
@@ -198,5 +200,26 @@
 ;@ghost ln.qfaults Int
 ;@monotone ln.qfaults ln.npay ln.nst
 (declare-fun grpc.code (Iface) Int)
+; amount (msat) and payment hash a BOLT11 invoice string encodes
+(declare-fun decode.msat (Str) Int)
+(declare-fun decode.hash (Str) Str)
+(assert (forall ((s Str)) (! (and (<= 0 (decode.msat s)) (< (decode.msat s) 9223372036854775808)) :pattern ((decode.msat s)))))
 (assert (= (grpc.code nil.Iface) 0))
 (declare-fun ln.fee (Int) Int)
+
+;@module mapsum sums
+; Sum of the values of a string-keyed map, and the fold of an enumeration of
+; its keys. For every `range` over such a map the engine emits
+; esum.str(enum, vals, len) = mapsum.str(keys, vals) for the (arbitrary, fresh)
+; enumeration of that loop: addition is commutative (assumption A-FOLD).
+(declare-fun mapsum.str ((Array Str Bool) (Array Str Int)) Int)
+(define-unfold esum.str ((k (Array Int Str)) (v (Array Str Int)) (n Int)) Int (ite (<= n 0) 0 (+ (esum.str k v (- n 1)) (nn (select v (select k (- n 1)))))))
+;@module mapsum.ax
+;@attach mapsum
+(assert (forall ((k (Array Int Str)) (v (Array Str Int)) (n Int)) (! (>= (esum.str k v n) 0) :pattern ((esum.str k v n)))))
+
+;@module hd
+; BIP32: extended keys are immutable objects; derivation is a pure function of
+; (parent, index) (assumption A-LIB2).
+(declare-fun hd.master (Bytes) Ref)
+(declare-fun hd.derive (Ref Int) Ref)
